@@ -121,14 +121,10 @@ def rule_a(ctx):
             ctx.bad(rid, key + ":dup", "two C rows translate to the same variant %s" % v, "extract.c:%s" % r["line"])
         used.add(v)
     f = c_decl(F, "FunctionDecl", "sighook_signal_cause")
-    rets = find(f, "ReturnStmt")
-    vals = [int_of(r["inner"][0]) for r in rets if r.get("inner")]
     unknown = [d for d, n in disc.items() if n == "Unknown"]
-    ctx.check(len(unknown) == 1 and unknown[0] in vals and vals[-1] == unknown[0], rid, "fallthrough-unknown", "the fall-through return is the Unknown discriminant (%s)" % unknown, None, vals)
     missing = [n for n in disc.values() if n not in used and n != "Unknown"]
     ctx.check(not missing, rid, "all-variants-produced", "every non-Unknown variant has a C row", None, missing)
-    # matching logic of the C loop: native == si_code && (signal == -1 || signal == si_signo), returning .translated of the same row
-    # conjuncts guarding `return consts[i].translated` (nested ifs and && are flattened; operand order is canonicalised)
+
     def canon(op, a, b):
         a, b = sorted([a, b])
         return "(%s %s %s)" % (a, op, b)
@@ -143,40 +139,53 @@ def rule_a(ctx):
         if n["kind"] == "BinaryOperator" and n.get("opcode") == "&&":
             return conjuncts(n["inner"][0]) + conjuncts(n["inner"][1])
         return [cexpr(n)]
+    # "results" of the classifier: every `return e;` and, when e is a local variable, every value that variable is given
+    # (its initialiser and its assignments), each with the conjuncts of the enclosing if-conditions
+    results = []        # (expr string, int value or None, guard conjuncts, line)
+    rets = find(f, "ReturnStmt")
+    ret_vars = set()
+    for r in rets:
+        if r.get("inner"):
+            e = strip_c(r["inner"][0])
+            if e["kind"] == "DeclRefExpr" and e["ref"]["kind"] == "VarDecl":
+                ret_vars.add(e["ref"]["name"])
 
-    def guards(n, acc):
-        """yield the conjunct lists under which a `return <x>.translated` is reached"""
-        out = []
-        if n.get("kind") == "ReturnStmt" and n.get("inner") and cexpr(n["inner"][0]) == "consts[i].translated":
-            out.append(list(acc))
-        if n.get("kind") == "IfStmt" and n.get("inner"):
+    def walk(n, acc):
+        k = n.get("kind")
+        if k == "ReturnStmt" and n.get("inner"):
+            e = strip_c(n["inner"][0])
+            if not (e["kind"] == "DeclRefExpr" and e["ref"]["name"] in ret_vars):
+                results.append((cexpr(e), int_of(e), list(acc), n.get("line")))
+        if k == "VarDecl" and n.get("name") in ret_vars and n.get("inner"):
+            e = strip_c(n["inner"][-1])
+            results.append((cexpr(e), int_of(e), list(acc), n.get("line")))
+        if k == "BinaryOperator" and n.get("opcode") == "=" and n.get("inner"):
+            l = strip_c(n["inner"][0])
+            if l["kind"] == "DeclRefExpr" and l["ref"]["name"] in ret_vars:
+                e = strip_c(n["inner"][1])
+                results.append((cexpr(e), int_of(e), list(acc), n.get("line")))
+        if k == "IfStmt" and n.get("inner"):
             c = conjuncts(n["inner"][0])
             for x in n["inner"][1:2]:
-                out += guards(x, acc + c)
+                walk(x, acc + c)
             for x in n["inner"][2:]:
-                out += guards(x, acc)
-            return out
+                walk(x, acc)
+            return
         for x in n.get("inner", []):
-            out += guards(x, acc)
-        return out
-    g = guards(f, [])
+            walk(x, acc)
+    walk(f, [])
     need1 = canon("==", "consts[i].native", "info.si_code")
     need2 = canon("||", canon("==", "consts[i].signal", "-1"), canon("==", "consts[i].signal", "info.si_signo"))
-    okc = bool(g) and all(need1 in c and need2 in c for c in g)
-    ctx.check(okc, rid, "c-match-condition", "a row's code is returned only under native == si_code and (signal == -1 or signal == si_signo)", None, g)
-    extra = []
-    for r in rets:
-        if not r.get("inner"):
-            continue
-        ex = cexpr(r["inner"][0]); iv = int_of(r["inner"][0])
-        if ex == "consts[i].translated" or (iv is not None and unknown and iv == unknown[0]):
-            continue
-        extra.append({"returns": ex, "line": r.get("line")})
+    rowres = [r for r in results if r[0] == "consts[i].translated"]
+    okc = bool(rowres) and all(need1 in r[2] and need2 in r[2] for r in rowres)
+    ctx.check(okc, rid, "c-match-condition", "a row's code is produced only under native == si_code and (signal == -1 or signal == si_signo)", None, [r[2] for r in rowres])
+    ctx.check(bool(rowres), rid, "c-returns-translated", "the matched row's translated code is returned", None, [r[0] for r in results])
+    unk = [r for r in results if r[1] is not None and unknown and r[1] == unknown[0] and not r[2]]
+    ctx.check(len(unknown) == 1 and bool(unk), rid, "fallthrough-unknown", "when no row matches the result is the Unknown discriminant (%s)" % unknown, None, [(r[0], r[2]) for r in results])
+    extra = [{"value": r[0], "line": r[3]} for r in results if not (r[0] == "consts[i].translated" or (r[1] is not None and unknown and r[1] == unknown[0]))]
     ctx.check(not extra, rid, "c-returns-only-table-or-unknown", "the C classifier returns nothing but a matched row's code or the Unknown code (no catch-all class "
-              "for unlisted si_code values)", None, {"other_returns": extra, "why": "e.g. treating every negative si_code as 'queued' makes SI_TIMER/SI_ASYNCIO records "
+              "for unlisted si_code values)", None, {"other_results": extra, "why": "e.g. treating every negative si_code as 'queued' makes SI_TIMER/SI_ASYNCIO records "
                                                      "report a timer id as a process id"})
-    rt = [cexpr(r["inner"][0]) for r in rets if r.get("inner")]
-    ctx.check("consts[i].translated" in rt, rid, "c-returns-translated", "the matched row's translated code is returned", None, rt)
     return rows, disc
 
 
